@@ -45,6 +45,12 @@ Proof.
       repeat split; auto.
       * cbn [app]. constructor; auto. destruct (s_running s); auto.
       * intros i Hi. destruct i as [|i]; cbn in Hi; [destruct (s_running s); discriminate|]. eapply D; eauto.
+    + rewrite T by exact H. cbn [s_cfg].
+      specialize (IH (mkSt (s_cfg s) (s_now s + d) (if s_running s then s_now s + d else s_last_pong s) (s_next s) (s_running s)) H).
+      destruct (run _ es) as [s2 os]. destruct IH as (A & B & C & D). cbn [s_running] in A.
+      repeat split; auto.
+      * cbn [app]. repeat constructor; auto.
+      * intros i Hi. destruct i as [|[|[|i]]]; cbn in Hi; try discriminate. eapply D; eauto.
 Qed.
 
 (* no timeout configured (T indefinite): pings, never a timeout *)
@@ -192,3 +198,15 @@ Example slow_but_live_peer_is_timed_out :
   let '(s, out) := run s0 [Pong; Adv 1000; Adv 1000] in
   s_running s = false /\ out = [0; 0; 0; 1; 0; 0; 0; 1; 106].
 Proof. vm_compute. auto. Qed.
+
+(* a Pong that has arrived by the time the task runs counts, even if a tick is due in the very
+   same poll: the receive side is served before the ping loop *)
+Theorem pong_with_tick_counts s d : s_running s = true ->
+  let '(s', out) := step s (AdvPong d) in s_running s' = true /\ nth_error out 2 = Some 0.
+Proof.
+  intros R. cbn [step]. rewrite R. unfold tick. cbn [s_cfg s_running s_now s_next s_last_pong].
+  destruct (k_int (s_cfg s)) as [period|]; [|cbn; auto].
+  cbn [negb orb]. destruct (s_now s + d <? s_next s); [cbn; auto|].
+  rewrite N.sub_diag. destruct (k_to (s_cfg s)) as [t|]; cbn [s_running nth_error]; auto.
+  destruct (N.ltb_spec t 0); [lia|]. cbn [s_running nth_error]. auto.
+Qed.
